@@ -46,6 +46,10 @@ def acceptedClaimantOK (vals : List Validator) (wl : List Nat) (v : Nat) : Bool 
     discarded transaction would not roll back) -/
 def viewIsStore (view stored : List Nat) : Bool := view == stored
 
+/-- Finality over a history, as observed: the prophecy as it was when it was first seen finalised (status, final claim,
+    both claim maps) is what the keeper still returns now — after any number of blocks, restarts and late claims. -/
+def finalKept (first : Prophecy) (now : Option Prophecy) : Bool := first.status != .pending && now == some first
+
 /-- Finality as observed around one claim message: a prophecy that was not pending before the message is the
     same afterwards, the message did not succeed, and no balance or supply changed. -/
 def finalStable (before : Prophecy) (after : Option Prophecy) (ok : Bool) (bankSame : Bool) : Bool :=
